@@ -121,6 +121,7 @@ def run(ctx, rep):
                     r.bad(key, "`%s` is tabled as reset-to-empty in %s, found origins %s" % (fname, ctor, sorted(map(str, atoms))[:4]), where)
             elif want in ("extend", "parents"):
                 _extend(r, r2, key, want, b, pr, rv["ops"][fi], bb, idx, fi, fi_input, fields, lib)
+    ctor_census(rep, lib, tab, fields)
     common.clone_faithful(rep, lib)
     scope_lookup(rep, lib)
     macro_unevaluated(rep, lib)
@@ -190,11 +191,91 @@ def run(ctx, rep):
                            for a in pr.call_arg_origins(c, 0))
                 if not (from_stage or from_input) or not base:
                     good = False
-            if good:
+            # path clause: a stage evaluated inside the loop over the stages hands its value on through with_inupt
+            # on EVERY way back to the loop header - a way round the loop that skips it (a "value unchanged" fast
+            # path) evaluates the next stage without the previous one in the chain of parents (seed C12-r10-1)
+            skipped = None
+            wib = {c.bb for c in wi}
+            loops = b.loops()
+            for c in gets:
+                for h, blocks in loops.items():
+                    if c.bb not in blocks:
+                        continue
+                    starts = [c.target] if c.target is not None else []
+                    for s0 in starts:
+                        if s0 in wib:
+                            continue
+                        if h in b.reachable(s0, avoid=wib):
+                            p = b.path(s0, h, avoid=wib)
+                            skipped = (c, h, p)
+            if skipped is not None:
+                good = None
+                c, h, p = skipped
+                r4.bad("pipe", "after the stage evaluation at line %s the loop over the stages can go round again "
+                       "without with_inupt (blocks %s): the next stage is evaluated in a context that does not have the "
+                       "previous stage as its input / parent" % (c.line, p), b.where(c.bb))
+            if good is None:
+                pass
+            elif good:
                 r4.ok("pipe", "%d with_inupt site(s), %d stage evaluation(s)" % (len(wi), len(gets)), b.where())
             else:
                 r4.bad("pipe", "a pipe stage is not evaluated in with_inupt(previous stage's value)", b.where())
 
+
+
+FRESH_CTORS = ("processor::Context::new_empty", "processor::Context::new_with_no_context",
+               "processor::Context::new_with_input")
+ENV_FIELDS = ("variables", "definitions", "input_context", "regex_cache")
+
+
+def ctor_census(rep, lib, tab, fields, rid="C12-CTOR-CENSUS"):
+    """Every place that builds a Context. The frame table speaks about the six derived constructors by name; a
+    seventh way of deriving a context (a new constructor, a closure that builds the contexts of the elements of a
+    split) is held to the part of the frame condition that no derived constructor may break: the bindings and the
+    environment (variables, definitions, input_context, regex_cache) are never taken from a fresh context."""
+    r = rep.rule(rid, "a Context is built only by the three fresh constructors and the six tabled derived "
+                 "constructors; any other place that builds one from an existing context (a Context is a parameter of "
+                 "the function, or of the function a closure is written in) does not take variables, definitions, "
+                 "input_context or regex_cache from a fresh context: macros and variables bound outside stay bound in "
+                 "the derived context", floor=9,
+                 analysis="A7 census of Context aggregates over the functions as written (closures included) + A4 "
+                          "provenance of the four environment operands of every untabled site")
+    raw = lib.raw_view() if hasattr(lib, "raw_view") else lib
+    tabled = set(FRESH_CTORS) | {"processor::Context::" + c for c in tab}
+    for name, b in sorted(raw.bodies.items()):
+        sites = [(bb, idx, rv) for bb, idx, place, rv, _ in b.assignments()
+                 if rv["k"] == "agg" and rv.get("adt") == "processor::Context"]
+        if not sites:
+            continue
+        if name in tabled:
+            r.ok(name.rsplit("::", 1)[-1], "tabled constructor (%d aggregate)" % len(sites), b.where(),
+                 nontrivial=False)
+            continue
+        owner = name.split("::{closure")[0]
+        scope = [b] + ([raw.bodies[owner]] if owner != name and owner in raw.bodies else [])
+        has_ctx = any("processor::Context" in (l.get("ty") or "")
+                      for sb in scope for l in sb.raw["locals"][1:1 + sb.raw["arg_count"]])
+        if not has_ctx:
+            r.ok(name + "#fresh", "builds a context from nothing (no Context in scope): a fresh constructor",
+                 b.where(), nontrivial=False)
+            continue
+        pr = Prov(b, LOOKX)
+        for n, (bb, idx, rv) in enumerate(sites):
+            by_name = dict(zip(rv.get("fields") or fields, rv["ops"]))
+            for f in ENV_FIELDS:
+                key = "%s#%d.%s" % (name, n, f)
+                if f not in by_name:
+                    continue
+                atoms = pr._rv_origins_at({"k": "use", "op": by_name[f]}, (), bb, idx, set())
+                fresh = sorted({b.call_at[a[1]].name or "?" for a in atoms if a[0] == "call"
+                                and ((b.call_at[a[1]].name or "").startswith("processor::Context::new")
+                                     or (b.call_at[a[1]].name or "").endswith(("::new", "::default", "::new_empty")))})
+                if fresh:
+                    r.bad(key, "a context derived from an existing one takes `%s` from %s: what was bound / known "
+                          "outside (macros, variables, the input's position, the regex cache) is lost in the derived "
+                          "context" % (f, fresh), b.where(bb))
+                else:
+                    r.ok(key, "not reset", b.where(bb))
 
 
 def scope_lookup(rep, lib, rid="C12-SHADOW"):
